@@ -164,7 +164,7 @@ Record sinv (rt : option Z) (st : nstate) : Prop := mkSinv {
       (s_cnt s = 0%nat /\ s_time s == 0 /\ s_b s = SBundle false 0 0 [SMsg gnew_msg]) \/
       exists o T lat es, In (EvSend o T lat es (Some (s_b s))) (n_log st) /\
                          s_time s == stamp_time (send_mode rt o) T lat;
-  si_mtime : rt = None -> match last_resume_secs (n_log st) with Some s => n_mtime st = s | None => True end
+  si_mtime : rt = None -> match last_resume_secs (n_log st) with Some s => n_mtime st = s | None => n_mtime st = 0 end
 }.
 
 (* a segment run by thread org at logical time T keeps the invariant, provided org's resumption
@@ -233,7 +233,7 @@ Lemma sinv_same rt st st' :
   sinv rt st -> sinv rt st'.
 Proof.
   intros Hl Hs Hc Hm I. destruct I as [A B C D E F]. constructor; unfold score_ok in *; rewrite ?Hl, ?Hs, ?Hc; auto.
-  intros G. rewrite (Hm G). auto. Show.
+  intros G. rewrite (Hm G). exact (F G).
 Qed.
 
 (* ---- NRT executions ------------------------------------------------------- *)
@@ -268,9 +268,9 @@ Proof.
   assert (Hr : exists c0 b, In (EvResume rid (r_k r) c0 T b) (n_log st1)) by (exists c, beats; simpl; auto).
   destruct (sinv_segment None qk p (Some (rid, r_k r)) T _ _ _ _ _ I1 Hr E) as (I2 & Hm & _).
   destruct oc.
-  - eapply sinv_same; [| | | |exact I2]; reflexivity.
-  - eapply sinv_add_nonsend; [| | | |eapply sinv_same; [| | | |exact I2]]; try reflexivity.
-  - eapply sinv_add_nonsend; [| | | |eapply sinv_same; [| | | |exact I2]]; try reflexivity.
+  - eapply sinv_same; [| | | |exact I2]; try reflexivity; intros; reflexivity.
+  - eapply sinv_add_nonsend; [| | | |eapply sinv_same; [| | | |exact I2]]; try reflexivity; intros; reflexivity.
+  - eapply sinv_add_nonsend; [| | | |eapply sinv_same; [| | | |exact I2]]; try reflexivity; intros; reflexivity.
 Qed.
 
 (* ---- RT executions: every oracle ------------------------------------------- *)
@@ -287,30 +287,32 @@ Proof.
   assert (Hr : exists c0 b, In (EvResume rid (r_k r) c0 T b) (n_log st1)) by (exists c, beats; simpl; auto).
   destruct (sinv_segment (Some off) repaired p (Some (rid, r_k r)) T _ _ _ _ _ I1 Hr E) as (I2 & Hm & _).
   destruct oc.
-  - eapply sinv_same; [| | | |exact I2]; try reflexivity. discriminate.
-  - eapply sinv_add_nonsend; [| | | |eapply sinv_same; [| | | |exact I2]]; try reflexivity. discriminate.
-  - eapply sinv_add_nonsend; [| | | |eapply sinv_same; [| | | |exact I2]]; try reflexivity. discriminate.
+  - eapply sinv_same; [| | | |exact I2]; try reflexivity; intros HH; discriminate HH.
+  - eapply sinv_add_nonsend; [| | | |eapply sinv_same; [| | | |exact I2]]; try reflexivity; intros HH; discriminate HH.
+  - eapply sinv_add_nonsend; [| | | |eapply sinv_same; [| | | |exact I2]]; try reflexivity; intros HH; discriminate HH.
 Qed.
 
+Opaque run_acts.
 Lemma sinv_rt_step off p s ch : sinv (Some off) (rs s) -> sinv (Some off) (rs (rt_step off p s ch)).
 Proof.
   intros I. destruct ch as [t|t|rid t]; simpl.
-  - destruct (rs_tempos s); simpl; auto. eapply sinv_same; [| | | |exact I]; try reflexivity. discriminate.
+  - destruct (rs_tempos s); simpl; auto. eapply sinv_same; [| | | |exact I]; try reflexivity; intros HH; discriminate HH.
   - destruct (rs_tempos s); [|simpl; auto]. destruct (rs_main s) as [|a rest]; simpl; auto.
     destruct (run_acts (Some off) repaired p (set_mtime (rs s) (advance (rs_now s) t)) None
                 (advance (rs_now s) t) CSystem [a]) as [st' oc] eqn:E.
     assert (I0 : sinv (Some off) (set_mtime (rs s) (advance (rs_now s) t))).
-    { eapply sinv_same; [| | | |exact I]; try reflexivity. discriminate. }
+    { eapply sinv_same; [| | | |exact I]; try reflexivity; intros HH; discriminate HH. }
     destruct (sinv_segment (Some off) repaired p None _ _ _ _ _ _ I0 (fun H => ltac:(discriminate)) E) as (A & _).
     exact A.
   - destruct (find_rid rid (n_q (rs s))) as [e0|]; simpl; auto.
     destruct (pop_clock (e_clock e0) (n_q (rs s))) as [[e rest]|]; simpl; auto.
     destruct (Nat.eqb (e_rid e) rid); simpl; auto.
-    apply sinv_rt_wake. eapply sinv_same; [| | | |exact I]; try reflexivity.
+    apply sinv_rt_wake. eapply sinv_same; [| | | |exact I]; try reflexivity; intros; reflexivity.
 Qed.
 
+Transparent run_acts.
 Lemma sinv_rt_init off p : sinv (Some off) (rs (rt_init p)).
-Proof. constructor; simpl; try (intros; tauto). discriminate. discriminate. Qed.
+Proof. constructor; simpl; try (intros; tauto); try discriminate. Qed.
 
 Lemma sinv_rt_run off p sched : sinv (Some off) (rs (rt_run off p sched)).
 Proof.
@@ -319,6 +321,7 @@ Proof.
 Qed.
 
 (* the step that runs code outside routines stamps with the physical time it has just read *)
+Opaque run_acts.
 Lemma rt_top_step_log off p s t a rest : rs_tempos s = [] -> rs_main s = a :: rest ->
   log_ext (Some off) None (advance (rs_now s) t) (rs s) (rs (rt_step off p s (ChTop t))).
 Proof.
@@ -385,3 +388,5 @@ Proof.
     rewrite lat_val_of_nonneg by auto. ring.
   - apply score_add_ok. split; auto.
 Qed.
+
+Transparent run_acts.
